@@ -306,6 +306,8 @@ func cmdCheck(args []string) int {
 			}
 			m["count"] = m["count"].(int) + 1
 			m["secs"] = m["secs"].(float64) + r.Secs
+		} else if r.Status == "error" {
+			machinery = append(machinery, fmt.Sprintf("solver rejected the query for %s: %s", r.Name, firstLines(r.Output, 2)))
 		} else {
 			viol = append(viol, r)
 		}
